@@ -32,10 +32,21 @@ template <class G> static Out call(const G& g, int form, bool arcmode, double la
   else if (form == 1) {
     auto l = g.Line(lat1, lon1, azi1, Geodesic::ALL);
     o.a12 = l.GenPosition(arcmode, len, mask, o.lat2, o.lon2, o.azi2, o.s12, t, t, t, t);
-  } else {
+  } else if (form <= 3) {
     auto l = arcmode ? g.ArcDirectLine(lat1, lon1, azi1, len, Geodesic::ALL) : g.DirectLine(lat1, lon1, azi1, len, Geodesic::ALL);
     bool am = form == 2 ? arcmode : !arcmode;
     o.a12 = l.GenPosition(am, am ? l.Arc() : l.Distance(), mask, o.lat2, o.lon2, o.azi2, o.s12, t, t, t, t);
+  } else if (form == 4) {             // the public overloads Direct / ArcDirect (no LONG_UNROLL)
+    if (arcmode) { g.ArcDirect(lat1, lon1, azi1, len, o.lat2, o.lon2, o.azi2, o.s12); o.a12 = len; }
+    else { o.a12 = g.Direct(lat1, lon1, azi1, len, o.lat2, o.lon2, o.azi2); o.s12 = len; }
+  } else if (form == 5) {             // Line, then GenSetDistance (SetDistance / SetArc), then the position at GenDistance
+    auto l = g.Line(lat1, lon1, azi1, Geodesic::ALL);
+    l.GenSetDistance(arcmode, len);
+    o.a12 = l.GenPosition(arcmode, l.GenDistance(arcmode), mask, o.lat2, o.lon2, o.azi2, o.s12, t, t, t, t);
+  } else {                            // Line, then the public Position / ArcPosition overloads (no LONG_UNROLL)
+    auto l = g.Line(lat1, lon1, azi1, Geodesic::ALL);
+    if (arcmode) { l.ArcPosition(len, o.lat2, o.lon2, o.azi2, o.s12); o.a12 = len; }
+    else { o.a12 = l.Position(len, o.lat2, o.lon2, o.azi2); o.s12 = len; }
   }
   return o;
 }
@@ -46,17 +57,17 @@ int main(int argc, char** argv) {
   Ctx ctx(argc, argv);
   const bool T = ctx.thorough();
   std::vector<geodtab::Ell> ells = geodtab::ellipsoids();
-  const std::vector<double> lats = geodlat::direct_lats(), azis = geodlat::direct_azis(), lons = geodlat::direct_lons();
-  const std::vector<geodlat::LSpec> lspec = geodlat::direct_lengths();
+  const std::vector<double> lats = geodlat::direct_lats(T), azis = geodlat::direct_azis(T), lons = geodlat::direct_lons();
+  const std::vector<geodlat::LSpec> lspec = geodlat::direct_lengths(T);
+  const int nforms = T ? 7 : 4;
 
   ctx.sub("direct");
-  ctx.bound("direct.ellipsoids", T ? "all 21: a=6378137 f in {0,+-1/298.257223563,+-0.01,+-0.02,+-0.05,+-0.1,+-0.2}; (a=1,f=1/150); (a=1e9,f=-1/150); b/a in {1/16,1/2,0.99,1.01,2,16} with quarter meridian 1e7 m"
-                                   : "8: wgs84, f=+-0.02, f=+-0.1 (a=6378137); b/a in {1/2, 2, 1/16} with quarter meridian 1e7 m");
-  ctx.bound("direct.lat1", geodlat::direct_lat_text());
-  ctx.bound("direct.azi1", geodlat::direct_azi_text());
+  ctx.bound("direct.ellipsoids", geodlat::ellipsoid_text(T));
+  ctx.bound("direct.lat1", geodlat::direct_lat_text(T));
+  ctx.bound("direct.azi1", geodlat::direct_azi_text(T));
   ctx.bound("direct.lon1", "{0,179.5,-180,540}");
   ctx.bound("direct.length", geodlat::direct_len_text(T));
-  ctx.bound("direct.config", "{Geodesic series (|f|<=0.2 only), GeodesicExact, Geodesic(exact=true)} x {GenDirect, Line+GenPosition, (Arc)DirectLine+GenPosition at s13/a13 same kind, same line other kind} x LONG_UNROLL {0,1}");
+  ctx.bound("direct.config", std::string("{Geodesic series (|f|<=0.2 only), GeodesicExact, Geodesic(exact=true)} x {GenDirect, Line+GenPosition, (Arc)DirectLine+GenPosition at s13/a13 same kind, same line other kind") + std::string(T ? ", public Direct/ArcDirect overloads, Line+GenSetDistance+GenPosition at GenDistance, Line+public Position/ArcPosition" : "") + "} x LONG_UNROLL {0,1} (the public overloads have no unrolled variant)");
   ctx.note("tolerance = 2 x documented error (Geodesic.hpp table by |f| scaled by a/6378137; GeodesicExact.hpp table by b/a scaled by Q/1e7 m, floor 40 nm), times the number of half circuits max(1, |s12|/2Q, |a12|/180) (the documented figures are for shortest geodesics)");
   ctx.note("exactly meridional lines through a pole (sin azi1 = 0): the documentation does not say on which side the pole is passed; |lon2-lon1| is compared");
 
@@ -121,7 +132,8 @@ int main(int argc, char** argv) {
             if (sv == 0 && !E.series) continue;
             const ld tol = (sv == 0 ? tolS : tolX) * sc;
             const char* svn = sv == 0 ? "series" : (sv == 1 ? "exact" : "exact=true");
-            for (int form = 0; form < 4; ++form) for (int un = 0; un < 2; ++un) {
+            for (int form = 0; form < nforms; ++form) for (int un = 0; un < 2; ++un) {
+              if (un == 1 && (form == 4 || form == 6)) continue;
               Ctx::Case cs(ctx);
               Out o = sv == 0 ? call(*gs, form, l.arc, lat1, lon1, azi1, l.v, un) : (sv == 1 ? call(*ge, form, l.arc, lat1, lon1, azi1, l.v, un) : call(*gx, form, l.arc, lat1, lon1, azi1, l.v, un));
               ++ncalls;
@@ -154,7 +166,7 @@ int main(int argc, char** argv) {
               ctx.worstf(std::string("a12.err_over_tol.") + svn, (double)(ea / tol), where);
               if (!(es <= tol)) bad("s12", "returned s12 " + fx(o.s12) + " true " + mc::fmtl(l.s));
               if (!(ea <= tol)) bad("a12", "returned a12 " + fx(o.a12) + " true " + mc::fmtl(l.a12deg) + " (x ds/da = " + mc::fmtl(ea) + " m)");
-              if (form <= 2) {
+              if (form <= 2 || form >= 4) {
                 bool echo = l.arc ? mc::same_bits(o.a12, l.v) || (o.a12 == l.v) : (o.s12 == l.v);
                 if (!echo) bad("echo", std::string("the specified length is not returned unchanged: ") + (l.arc ? "a12 " + fx(o.a12) : "s12 " + fx(o.s12)));
               }
